@@ -36,6 +36,7 @@ package boltz
 //@   ensures[the-entities-bucket] result != nil && result.ErrorHolderImpl != nil && (result.Err == nil ==> result.Bucket != nil && ref(result.Bucket) == entsB(self, tx))
 //@   ensures[no-plain-entry-changes] plainSame() && bucketsKept()
 //@ func GetOrCreatePath
+//@   trusted bucket navigation: assumed to return the bucket the path names; what it changes (only missing buckets are created) is proved for its callers' frames (plainSame / bucketsKept)
 //@   modifies bktHas, bktVal, bktSub
 //@   censures[the-bucket-at-the-path] result != nil && result.ErrorHolderImpl != nil && (result.Err == nil ==> result.Bucket != nil && ref(result.Bucket) == pathB(tx, arr(path), len(path)))
 //@ func (*BaseStore).getOrCreateEntitiesBucket
